@@ -1093,6 +1093,9 @@ func (rr *IPSECKEY) String() string {
 	switch rr.GatewayType {
 	case IPSECGatewayIPv4, IPSECGatewayIPv6:
 		gateway = rr.GatewayAddr.String()
+		if rr.GatewayType == IPSECGatewayIPv6 && rr.GatewayAddr.To4() != nil {
+			gateway = ipv4InIPv6Prefix + gateway
+		}
 	case IPSECGatewayHost:
 		gateway = rr.GatewayHost
 	case IPSECGatewayNone:
@@ -1122,6 +1125,9 @@ func (rr *AMTRELAY) String() string {
 	switch rr.GatewayType & 0x7f {
 	case AMTRELAYIPv4, AMTRELAYIPv6:
 		gateway = rr.GatewayAddr.String()
+		if rr.GatewayType&0x7f == AMTRELAYIPv6 && rr.GatewayAddr.To4() != nil {
+			gateway = ipv4InIPv6Prefix + gateway
+		}
 	case AMTRELAYHost:
 		gateway = rr.GatewayHost
 	case AMTRELAYNone:
